@@ -266,7 +266,103 @@ func genC04(g *G) {
 	}
 }
 
+// polymodLinear is the linear part of the Bech32 checksum: the polymod of a symbol vector started from 0 instead of 1,
+// so that polymod(x xor e) = polymod(x) xor polymodLinear(e) for equal-length x, e.
+func polymodLinear(v []byte) uint32 {
+	gen := [5]uint32{0x3b6a57b2, 0x26508e6d, 0x1ea119fa, 0x3d4233dd, 0x2a1462b3}
+	var chk uint32
+	for _, x := range v {
+		b := chk >> 25
+		chk = (chk&0x1ffffff)<<5 ^ uint32(x)
+		for i := 0; i < 5; i++ {
+			if (b>>uint(i))&1 == 1 {
+				chk ^= gen[i]
+			}
+		}
+	}
+	return chk
+}
+
+// syndromePatterns finds error patterns of weight <= 4 on the last `window` symbols of a code word whose syndrome is one
+// of the wanted values (meet in the middle over pairs). Such a pattern turns a valid string into one that an
+// implementation comparing the checksum modulo that value — a masked comparison, a second accepted constant — accepts.
+func syndromePatterns(window int, wanted []uint32) map[uint32][][2][2]int {
+	contrib := make([][32]uint32, window) // contrib[p][v]: value v at distance p from the end
+	for p := 0; p < window; p++ {
+		for v := 1; v < 32; v++ {
+			e := make([]byte, p+1)
+			e[0] = byte(v)
+			contrib[p][v] = polymodLinear(e)
+		}
+	}
+	type pair struct{ p, v, q, w int }
+	pairs := map[uint32]pair{}
+	for p := 0; p < window; p++ {
+		for q := p + 1; q < window; q++ {
+			for v := 1; v < 32; v++ {
+				for w := 1; w < 32; w++ {
+					pairs[contrib[p][v]^contrib[q][w]] = pair{p, v, q, w}
+				}
+			}
+		}
+	}
+	out := map[uint32][][2][2]int{}
+	for _, d := range wanted {
+		n := 0
+		for s1, a := range pairs {
+			b, ok := pairs[s1^d]
+			if !ok || a.p == b.p || a.p == b.q || a.q == b.p || a.q == b.q {
+				continue
+			}
+			out[d] = append(out[d], [2][2]int{{a.p, a.v}, {a.q, a.w}}, [2][2]int{{b.p, b.v}, {b.q, b.w}})
+			if n++; n >= 2 {
+				break
+			}
+		}
+	}
+	return out
+}
+
+func genC16Targeted(g *G) {
+	window := 24
+	if g.thorough {
+		window = 40
+	}
+	// differences between the required final value and values a faulty comparison could also accept: a dropped bit, the
+	// four top bits in every combination (26-bit masks), the BIP-350 (Bech32m) constant
+	var wanted []uint32
+	for i := 0; i < 30; i++ {
+		wanted = append(wanted, 1<<uint(i))
+	}
+	for m := uint32(2); m < 16; m++ {
+		wanted = append(wanted, m<<26)
+	}
+	wanted = append(wanted, 1^0x2bc830a3)
+	pats := syndromePatterns(window, wanted)
+	for _, hl := range []int{1, 4} {
+		dl := (window*5+7)/8 + 2
+		s, err := bech32.Encode(g.hrp(hl), g.r.bytes(dl))
+		if err != nil {
+			continue
+		}
+		for _, d := range wanted {
+			ps := pats[d]
+			for i := 0; i+1 < len(ps); i += 2 {
+				m := []byte(strings.ToLower(s))
+				for _, half := range ps[i : i+2] {
+					for _, pv := range half {
+						at := len(m) - 1 - pv[0]
+						m[at] = b32charset[strings.IndexByte(b32charset, m[at])^pv[1]]
+					}
+				}
+				g.emit("bech32.dec", hx(m))
+			}
+		}
+	}
+}
+
 func genC16(g *G) {
+	genC16Targeted(g)
 	emit := func(s []byte) { g.emit("bech32.dec", hx(s)) }
 	bases := 6
 	if g.thorough {
